@@ -29,6 +29,7 @@ EXPLANATION = (
     "guard dominance for retry / redirect / lockfile writes (T5), who-may-call for Locker setters (T3). "
     "The behaviour of external Loader implementations is not decided."
 )
+EXPLANATION += " " + 'Plus: the package lookup that lets try_load derive the manifest checksum is guarded only by `version info not already known` (assets included).'
 NOT_DECIDED = "that an arbitrary Loader implementation verifies the checksum it is given; byte-level equality of hashed and stored content beyond 'same variable'"
 CONFIGS = ["default", "nofastcheck"]  # thorough tier also analyses the build without fast_check / symbols
 ASSUMPTIONS = [
